@@ -22,9 +22,11 @@ def wrap(link, checksum_only):
         # the checksum of a symbolic link is the digest of its TARGET text (what readlink returned for this path), all zero for anything else
         ens.append(('P:C13', 'g_rl_path == path->ptr'))
         ens.append(('P:C13', '(g_rl_len != -1) ==> (g_hash_calls == 1 && g_hash_src == g_rl_buf)'))
+        # ... the WHOLE target: every byte readlink returned is hashed, none more (two targets that differ in any byte digest differently)
+        ens.append(('P:C13', '(g_rl_len != -1) ==> g_hash_len == (size_t)g_rl_len'))
         ens.append(('P:C13', '(g_rl_len == -1) ==> (g_hash_calls == 0 && %s.checksum.bytes[g_k] == 0)' % R))
     return {'requires': PRE + (['g_hash_calls == 0'] if (link and checksum_only) else []),
-            'assigns': ASG + (['g_hash_calls', 'g_rl_buf', 'g_rl_path', 'g_rl_len', 'g_hash_src'] if (link and checksum_only) else []), 'ensures': ens}
+            'assigns': ASG + (['g_hash_calls', 'g_rl_buf', 'g_rl_path', 'g_rl_len', 'g_hash_src', 'g_hash_len'] if (link and checksum_only) else []), 'ensures': ens}
 
 
 UNIT = {
@@ -43,6 +45,7 @@ UNIT = {
     },
     'call_patterns': [
         (r'c:(basic_string<char>|string|std::string)\(const char \*, const (std::)?allocator<char> &\)', ('vstr_cstr', 'v')),
+        (r'c:(basic_string<char>|string|std::string)\(const char \*, .*size_type, const (std::)?allocator<char> &\)', ('vstr_cstrn', 'vv')),
     ],
     'prelude': '#include "models/base.h"\n#include "models/fswrap.h"\n',
     'after_structs': '#include "models/fswrap_after.h"\n',
